@@ -28,7 +28,7 @@ ASSUMPTIONS = ["phi=1 and phi=0 end points are exact for every legal draw in [0,
 REAL = ["gcmpy.tools.bond_percolate.bond_percolate", "networkx connected_components"]
 STUB = ["entropy source (decision stream)"]
 
-PHIS = (0.0, 2.0 ** -53, 0.1, 0.3, 0.5, 0.9, 1.0 - 2.0 ** -53, 1.0)
+PHIS = (0.0, 5e-324, 1e-300, 2.0 ** -53, 1e-9, 0.1, 0.3, 0.5, 0.9, 1.0 - 1e-9, 1.0 - 2.0 ** -53, 1.0, 0, 1)
 
 
 def gen_graph(prng):
@@ -56,6 +56,13 @@ def gen_graph(prng):
         multi = True
         edges = edges + [prng.choice(edges) for _ in range(prng.randrange(1, len(edges) + 2))]
     prng.shuffle(edges)
+    r = prng.random()
+    if r < 0.05:
+        labels = [x + prng.choice((250, 2 ** 31, 2 ** 63 + 5)) for x in labels]        # beyond the small-int cache / C long
+    elif r < 0.10:
+        labels = [f"v{x}" for x in labels]                                          # string vertices
+    elif r < 0.13:
+        labels = [[x, -x] for x in labels]                                          # tuple vertices (JSON: lists)
     return {"nodes": labels, "edges": [[labels[a], labels[b]] for a, b in edges], "kind": kind, "multi": multi}
 
 
@@ -69,8 +76,9 @@ def generate(prng, tier, index):
 
 def build(g, attrs):
     G = nx.MultiGraph() if g.get("multi") else nx.Graph()
-    G.add_nodes_from(g["nodes"])
-    G.add_edges_from(g["edges"])
+    h = (lambda v: tuple(v) if isinstance(v, list) else v)
+    G.add_nodes_from(h(v) for v in g["nodes"])
+    G.add_edges_from((h(a), h(b)) for a, b in g["edges"])
     if attrs:
         for v in G.nodes():
             G.nodes[v]["joint_degree"] = (G.degree(v), 0)
@@ -131,7 +139,7 @@ def shrink(sc):
             yield dict(sc, phis=sc["phis"][:i] + sc["phis"][i + 1:])
     for i in range(len(g["edges"])):
         yield dict(sc, graph=dict(g, edges=g["edges"][:i] + g["edges"][i + 1:]))
-    used = {v for e in g["edges"] for v in e}
+    used = [v for e in g["edges"] for v in e]
     for v in g["nodes"]:
         if v not in used and len(g["nodes"]) > 1:
             yield dict(sc, graph=dict(g, nodes=[x for x in g["nodes"] if x != v]))
